@@ -152,10 +152,10 @@ def execStatic (b : Beh) (m : Maps) : List SNode → VC → St → VC × St
     | none => (v, st.push (.bad n.id))
     | some args =>
       let r := callStatic b n args st
-      let v := wrOuts m.d v n.outs r.1
       if n.fallible && isErr (r.1.getD n.errIdx (zeroV 0)) then
-        (zeroSlots m.d v n.zero, r.2)
-      else execStatic b m rest v r.2
+        -- zero what the skipped injectors would have provided, then store this injector's results
+        (wrOuts m.d (zeroSlots m.d v n.zero) n.outs r.1, r.2)
+      else execStatic b m rest (wrOuts m.d v n.outs r.1) r.2
 
 /-! ### a bound chain as a state machine -/
 
